@@ -123,6 +123,8 @@ class CoroRef:
             if k == "sig":
                 self.pend[s[1]] = self.ev(s[2])
                 self.fresh = False
+            elif k == "comment":
+                pass  # not an action: an await that follows only comments is still the very first action
             elif k == "sigs":
                 _, t, hi, lo, e = s
                 m = ((1 << (hi - lo + 1)) - 1)
